@@ -14,6 +14,7 @@ import (
 	"os"
 	"os/exec"
 	"path/filepath"
+	"runtime"
 	"runtime/debug"
 	"strconv"
 	"strings"
@@ -62,6 +63,7 @@ func TestVerifC35ServerChild(t *testing.T) {
 	// the default limit of 1 GiB a runaway recursion ends the process just the same, but only after minutes of stack copying
 	// and scanning, longer than this leg's socket watchdogs
 	debug.SetMaxStack(c35MaxStack)
+	c35sHeapGuard()
 	cfg := config.Config{}
 	cfg.Server.ServerVersion = "15.0"
 	cfg.Server.ClientEncoding = "UTF8"
@@ -202,6 +204,26 @@ type c35Client struct {
 
 const c35MaxStack = 16 << 20
 
+// c35sHeapLimit: live heap above which a child of this leg ends itself as "out of
+// memory" (statements are a few KiB, storage is faked empty); without it a runaway
+// allocation would exhaust the machine before the kernel ends the process.
+const c35sHeapLimit = 3 << 30
+
+func c35sHeapGuard() {
+	debug.SetMemoryLimit(c35sHeapLimit)
+	go func() {
+		var ms runtime.MemStats
+		for {
+			time.Sleep(200 * time.Millisecond)
+			runtime.ReadMemStats(&ms)
+			if ms.HeapAlloc > c35sHeapLimit {
+				fmt.Fprintf(os.Stderr, "fatal error: verif heap guard: out of memory (live heap %d bytes > limit %d)\n", ms.HeapAlloc, uint64(c35sHeapLimit))
+				os.Exit(96)
+			}
+		}
+	}()
+}
+
 const c35IO = 30 * time.Second // watchdog on socket I/O; expiry is never a verdict by itself
 
 func c35Dial(addr string) (*c35Client, error) {
@@ -312,6 +334,7 @@ func TestVerifC35ClassifyChild(t *testing.T) {
 		t.Skip("classification child: started by TestVerifC35Server only")
 	}
 	debug.SetMaxStack(c35MaxStack)
+	c35sHeapGuard()
 	raw, err := os.ReadFile(in)
 	if err != nil {
 		t.Fatal(err)
@@ -434,9 +457,10 @@ func c35DownClass(dir, q string) (string, string) {
 
 func TestVerifC35Server(t *testing.T) {
 	r := verifkit.Start(t, "C35", "server")
-	defer r.Finish("the real SQL server runs in a child process (New + handleConnection per accepted loopback connection, storage faked empty); per case a bystander client completes a round trip, an attacker connection sends one generated text (valid / with length-changing runes / noise) as a simple Query or as Parse-Describe-Bind-Execute-Sync, then the bystander's next round trip on its old connection and a fresh connection's handshake must still succeed. Violation = the server process is gone (its exit is awaited, its stderr kept). non-trivial = a hostile or noise text was delivered and the bystander was re-checked",
+	defer r.Finish("the real SQL server runs in a child process (New + handleConnection per accepted loopback connection, storage faked empty); per case a bystander client completes a round trip, an attacker connection sends one generated text (valid / with length-changing runes / noise / as many statements, every statement kind in turn, whose white space is rewritten with runes of unicode.IsSpace outside the ASCII blanks and, every third, near-space runes such as zero-width space, BOM, soft hyphen) as a simple Query or as Parse-Describe-Bind-Execute-Sync, then the bystander's next round trip on its old connection and a fresh connection's handshake must still succeed. Violation = the server process is gone (its exit is awaited, its stderr kept). non-trivial = a hostile or noise text was delivered and the bystander was re-checked",
 		"the accept loop of (*Server).Run is reproduced in the child (listener on port 0) because Run does not expose its port; handleConnection is the code under test",
-		"socket deadlines and the wait for the child's exit are watchdogs: their expiry yields inconclusive, never a violation")
+		"socket deadlines and the wait for the child's exit are watchdogs: their expiry yields inconclusive, never a violation",
+		"the server child runs with a 16 MiB goroutine stack limit and ends itself above 3 GiB of live heap (statements are a few KiB): runaway recursion or allocation then ends the process in seconds, as it would at the default limits after minutes; a death is classified by parsing the same text in a further process (never in the supervising one)")
 	rs := gen.LengthChangingRunes()
 	scratch := os.Getenv("VERIF_SCRATCH")
 	if scratch == "" {
